@@ -81,26 +81,39 @@ def param_case(cid, cfg, observed):
 
 
 def multi_oracle(seed):
+    """per-network loaders: each network's batch pairs its own input / value / parameter rows, whatever the
+    order in which the three dictionaries were written; a network without observations gets an empty entry"""
     jax, jnp, np, eqx, jinns = jx()
+    rng = random.Random(seed)
     n = 6
     code = lambda off: (jnp.arange(n, dtype=float) * 10.0 + off)[:, None]
-    g = jinns.data.DataGeneratorObservationsMultiPINNs(
-        3, {"u": code(1.0), "v": None, "w": code(4.0)}, {"u": code(2.0), "v": None, "w": code(5.0)},
-        observed_eq_params_dict={"u": {"nu": code(3.0)}, "v": {}, "w": {}}, key=jax.random.PRNGKey(seed))
+    tables = {"pinn_in": {"u": code(1.0), "v": None, "w": code(4.0)}, "val": {"u": code(2.0), "v": None, "w": code(5.0)},
+              "eq": {"u": {"nu": code(3.0)}, "v": {}, "w": {"nu": code(6.0)}}}
     fails = []
-    for k in range(5):
-        g, bt = g.get_batch()
-        if set(bt.keys()) != {"u", "v", "w"}:
-            fails.append("multi-network batch lost a network key")
-            continue
-        if bt["v"] is not None and bt["v"] != {}:  # "empty entry": None (what the loss consumes) or {}
-            fails.append("network without observations does not get an empty entry")
-        pu = np.asarray(bt["u"]["pinn_in"])[:, 0]; vu = np.asarray(bt["u"]["val"])[:, 0]; eu = np.asarray(bt["u"]["eq_params"]["nu"])[:, 0]
-        if not (np.array_equal(pu + 1.0, vu) and np.array_equal(pu + 2.0, eu)):
-            fails.append(f"network u: rows not aligned at call {k}")
-        pw = np.asarray(bt["w"]["pinn_in"])[:, 0]; vw = np.asarray(bt["w"]["val"])[:, 0]
-        if not np.array_equal(pw + 1.0, vw):
-            fails.append(f"network w: rows not aligned at call {k}")
+    orders = [["u", "v", "w"]] * 3
+    for trial in range(4):
+        if trial:
+            orders = [rng.sample(["u", "v", "w"], 3) for _ in range(3)]      # the three dictionaries written in independent orders
+        din, dval, deq = ({k: tables[t][k] for k in o} for t, o in zip(("pinn_in", "val", "eq"), orders))
+        case = {"what": "multi", "orders": orders, "seed": seed}
+        try:
+            g = jinns.data.DataGeneratorObservationsMultiPINNs(3, din, dval, observed_eq_params_dict=deq, key=jax.random.PRNGKey(seed + trial))
+        except Exception as ex:
+            fails.append((f"multi-network loader rejected dictionaries with equal key sets ({type(ex).__name__})", case)); continue
+        for k in range(5):
+            g, bt = g.get_batch()
+            if set(bt.keys()) != {"u", "v", "w"}:
+                fails.append(("multi-network batch lost a network key", case))
+                continue
+            if bt["v"] is not None and bt["v"] != {}:  # "empty entry": None (what the loss consumes) or {}
+                fails.append(("network without observations does not get an empty entry", case))
+            for net, off in (("u", 1.0), ("w", 4.0)):
+                try:
+                    pi = np.asarray(bt[net]["pinn_in"])[:, 0]; vv = np.asarray(bt[net]["val"])[:, 0]; ee = np.asarray(bt[net]["eq_params"]["nu"])[:, 0]
+                except (KeyError, TypeError, IndexError) as ex:
+                    fails.append((f"network {net}: its batch lacks an entry of its own tables at call {k} ({type(ex).__name__}: {ex})", case)); continue
+                if not (np.array_equal(pi % 10.0, np.full_like(pi, off)) and np.array_equal(pi + 1.0, vv) and np.array_equal(pi + 2.0, ee)):
+                    fails.append((f"network {net}: batch rows are not rows of its own tables at call {k} (inputs {pi.tolist()}, values {vv.tolist()}, parameters {ee.tolist()})", case))
     return fails
 
 
@@ -143,11 +156,11 @@ def generate(tier, seed, casedir, variant):
                     if has_table and shape == "n1" and len(samples) < 3:
                         samples.append(dict(cfg, observed=observed))
                     cid += 1
-    for f in multi_oracle(rng.randrange(1 << 30)):
-        viol.append({"detail": f, "case": {"what": "multi"}})
+    for f, case in multi_oracle(rng.randrange(1 << 30)):
+        viol.append({"detail": f, "case": case})
     write_cases(casedir, "C15", "R_C15", variant, cases, chunk=200)
     return dict(meta=meta, oracle_violations=viol, evaluations=len(cases) + 1, distinct_nontrivial=len(nontrivial),
-                rule="observation loaders: random (n, b, columns, flat/2-D tables) with histories of two epochs + 1; parameter loaders: every (table?, range?, table shape, method) combination; one multi-network loader history; non-trivial = more than one batch per epoch (obs) / every combination (param)",
+                rule="observation loaders: random (n, b, columns, flat/2-D tables) with histories of two epochs + 1; parameter loaders: every (table?, range?, table shape, method) combination; multi-network loader histories with the three dictionaries written in independent key orders; non-trivial = more than one batch per epoch (obs) / every combination (param)",
                 samples=samples, distribution=dist, oracle_checks=len(cases) + 1)
 
 
@@ -165,6 +178,6 @@ def replay(rep, casedir, variant):
         if observed != param_expected(cfg):
             viol.append({"detail": f"parameter key built as {observed}, expected {param_expected(cfg)}", "case": cfg})
     else:
-        viol = [{"detail": f, "case": cfg} for f in multi_oracle(0)]
+        viol = [{"detail": f, "case": c} for f, c in multi_oracle(cfg.get("seed", 0))]
     write_cases(casedir, "C15", "R_C15", variant, cases)
     return dict(meta={0: cfg}, oracle_violations=viol, evaluations=1, distinct_nontrivial=1, rule="replay", samples=[cfg])
